@@ -86,6 +86,14 @@ func readProgress(path string) (i int, enumerated bool, beat uint64, ok bool) {
 // curProgress is the worker's progress file (nil in other modes); Shrink beats it.
 var curProgress *progress
 
+// Beat tells the coordinator that the current run is alive (called by long runs between their
+// subprocess calls, so that an overloaded machine is not mistaken for a stalled run).
+func Beat() {
+	if curProgress != nil {
+		curProgress.beat()
+	}
+}
+
 // ---------------------------------------------------------------- journal
 
 var (
